@@ -92,7 +92,10 @@ WHERES = [
     ("GRAPH <urn:g:1> { ?s ?p ?o }", True),
     ("{ ?s <http://e/p> ?o } UNION { GRAPH ?g { ?s <http://e/q> ?o } }", True),
     ("?s ?p ?o FILTER(isIRI(?o))", False),
+    ("GRAPH <urn:g:2> { ?s ?p ?o }", True),
+    ("GRAPH <urn:g:5> { ?s ?p ?o }", True),
 ]
+WHERE_OF_GRAPH = {1: 5, 2: 8, 5: 9}  # graph id -> index of the pattern GRAPH <that graph> { ?s ?p ?o }
 
 
 # ---------------------------------------------------------------- rendering
@@ -116,18 +119,30 @@ def r_gterm(g):
     return "<%s>" % GRAPH_POOL[g[1] - 1] if g[0] == "c" else "?" + VARS[g[1]]
 
 
-def r_tmpl(tm):
-    out = r_tpats(tm["t"])
-    for g, ts in tm["q"]:
-        out += " GRAPH %s { %s }" % (r_gterm(g), r_tpats(ts))
+def r_groups(blocks, split):
+    """blocks: [(graph text, [triple text..])..].  split=False: one GRAPH group per graph.  split=True: every
+    graph with two or more triples is spelled as two GRAPH groups, the second one after the groups of the
+    other graphs (translateQuads collects the groups of one graph under one key, first occurrence first)."""
+    if not split:
+        return "".join(" GRAPH %s { %s }" % (g, " ".join(ts)) for g, ts in blocks)
+    out = ""
+    for g, ts in blocks:
+        out += " GRAPH %s { %s }" % (g, " ".join(ts[: max(1, len(ts) // 2)]))
+    for g, ts in blocks:
+        if len(ts) > 1:
+            out += " GRAPH %s { %s }" % (g, " ".join(ts[max(1, len(ts) // 2):]))
     return out
 
 
-def r_data(ts, qs):
+def r_tmpl(tm, split=False):
+    return r_tpats(tm["t"]) + r_groups(
+        [(r_gterm(g), ["%s %s %s ." % tuple(r_pos(x) for x in tp) for tp in ts]) for g, ts in tm["q"]], split)
+
+
+def r_data(ts, qs, split=False):
     out = " ".join("%s %s %s ." % tuple(r_term(x) for x in t) for t in ts)
-    for c, bts in qs:
-        out += " GRAPH <%s> { %s }" % (GRAPH_POOL[c - 1], " ".join("%s %s %s ." % tuple(r_term(x) for x in t) for t in bts))
-    return out
+    return out + r_groups(
+        [("<%s>" % GRAPH_POOL[c - 1], ["%s %s %s ." % tuple(r_term(x) for x in t) for t in bts]) for c, bts in qs], split)
 
 
 def r_gspec(g):
@@ -138,23 +153,23 @@ def r_gd(g):
     return "DEFAULT" if g == "default" else "<%s>" % GRAPH_POOL[g - 1]
 
 
-def r_op(op):
+def r_op(op, split=False):
     k = op[0]
     if k == "insdata":
-        return "INSERT DATA { %s }" % r_data(op[1], op[2])
+        return "INSERT DATA { %s }" % r_data(op[1], op[2], split)
     if k == "deldata":
-        return "DELETE DATA { %s }" % r_data(op[1], op[2])
+        return "DELETE DATA { %s }" % r_data(op[1], op[2], split)
     if k == "delwhere":
-        return "DELETE WHERE { %s }" % r_tmpl(op[1])
+        return "DELETE WHERE { %s }" % r_tmpl(op[1], split)
     if k == "modify":
         _, w, ud, un, d, i, wk = op
         s = ""
         if w is not None:
             s += "WITH <%s> " % GRAPH_POOL[w - 1]
         if d is not None:
-            s += "DELETE { %s } " % r_tmpl(d)
+            s += "DELETE { %s } " % r_tmpl(d, split)
         if i is not None:
-            s += "INSERT { %s } " % r_tmpl(i)
+            s += "INSERT { %s } " % r_tmpl(i, split)
         for c in ud:
             s += "USING <%s> " % GRAPH_POOL[c - 1]
         for c in un:
@@ -166,8 +181,8 @@ def r_op(op):
     return "%s %s%s TO %s" % (k.upper(), sil, r_gd(op[2]), r_gd(op[3]))
 
 
-def r_request(ops):
-    return " ;\n".join(r_op(o) for o in ops)
+def r_request(ops, split=False):
+    return " ;\n".join(r_op(o, split) for o in ops)
 
 
 # ---------------------------------------------------------------- Coq text
@@ -267,7 +282,7 @@ def gen_tpat(rng, allow_bnode, legal_only=False):
     return tp
 
 
-def gen_tmpl(rng, allow_bnode, allow_quads, legal_only=False):
+def gen_tmpl(rng, allow_bnode, allow_quads, legal_only=False, fat=False):
     tm = {"t": [gen_tpat(rng, allow_bnode, legal_only) for _ in range(rng.choice([0, 1, 1, 1, 2]))], "q": []}
     if allow_quads and rng.random() < 0.45:
         names = []
@@ -276,7 +291,7 @@ def gen_tmpl(rng, allow_bnode, allow_quads, legal_only=False):
             if g in names:
                 continue
             names.append(g)
-            tm["q"].append([g, [gen_tpat(rng, allow_bnode, legal_only) for _ in range(rng.choice([1, 1, 2]))]])
+            tm["q"].append([g, [gen_tpat(rng, allow_bnode, legal_only) for _ in range(rng.choice([2, 2, 3] if fat else [1, 1, 2]))]])
     return tm
 
 
@@ -286,14 +301,14 @@ def tmpl_has_bnode(tm):
     return any(p[0] == "b" for ts in [tm["t"]] + [b[1] for b in tm["q"]] for tp in ts for p in tp)
 
 
-def gen_data(rng, allow_quads):
+def gen_data(rng, allow_quads, fat=False):
     def tr():
         return [rng.choice([1, 2, 12]), rng.choice(PRED), rng.choice([1, 2, 12, 5, 6, 10])]
     ts = [tr() for _ in range(rng.choice([0, 1, 1, 2]))]
     qs = []
     if allow_quads and rng.random() < 0.5:
         for c in rng.sample(ADDRESSABLE, rng.choice([1, 1, 2])):
-            qs.append([c, [tr() for _ in range(rng.choice([1, 2]))]])
+            qs.append([c, [tr() for _ in range(rng.choice([2, 3] if fat else [1, 2]))]])
     return ts, qs
 
 
@@ -319,6 +334,8 @@ class C10(Suite):
         # the default switch is on; the defects of that mode (F10a/F10b) are known, so most of
         # the budget goes to the mode in which the default graph is a real graph
         union = rng.random() < 0.3
+        # spell graphs with two or more template/data triples as two separate GRAPH groups, interleaved
+        split = rng.random() < 0.35
         cids = [0] + rng.sample([1, 2, 5, 3], rng.choice([0, 1, 2, 2, 3]))
         subs = rng.sample(SUBJ, rng.choice([2, 2, 3]))
         pool = []
@@ -345,30 +362,30 @@ class C10(Suite):
             if x < 0.45 and not seen_bnode:
                 # no GRAPH templates through a plain Graph: the partial effect before the failure
                 # depends on the (unspecified) order in which the engine enumerates the solutions
-                ops.append(self.gen_modify(rng, plain, allow_q and not plain))
+                ops.append(self.gen_modify(rng, plain, allow_q and not plain, split))
                 ins = ops[-1][5]
                 # new nodes (template blank nodes, or the graph minted for an unbound GRAPH ?g, F10e)
                 # must not be picked up by a later WHERE: their names cannot cross the boundary
                 seen_bnode = tmpl_has_bnode(ins) or (ins is not None and any(g[0] == "v" for g, _ in ins["q"]))
             elif x < 0.55 and not seen_bnode:
-                tm = gen_tmpl(rng, False, allow_q, legal_only=True)
+                tm = gen_tmpl(rng, False, allow_q, legal_only=True, fat=split)
                 # F10h: with two triple patterns outside GRAPH rdflib matches lazily while deleting and the
                 # outcome depends on the engine's enumeration order, which the model cannot follow
                 tm["t"] = tm["t"][:1]
                 ops.append(["delwhere", tm])
             elif x < 0.65:
-                ops.append(["insdata"] + list(gen_data(rng, allow_q)))
+                ops.append(["insdata"] + list(gen_data(rng, allow_q, split)))
             elif x < 0.73:
                 if rng.random() < 0.5 and quads:
                     q = rng.choice(quads)
                     if q[0] in (8, 13) or q[2] in (8, 13):
-                        ops.append(["deldata"] + list(gen_data(rng, allow_q)))
+                        ops.append(["deldata"] + list(gen_data(rng, allow_q, split)))
                     elif q[3] in ADDRESSABLE and allow_q:
                         ops.append(["deldata", [], [[q[3], [q[:3]]]]])
                     else:
                         ops.append(["deldata", [q[:3]], []])
                 else:
-                    ops.append(["deldata"] + list(gen_data(rng, allow_q)))
+                    ops.append(["deldata"] + list(gen_data(rng, allow_q, split)))
             else:
                 def gsp():
                     y = rng.random()
@@ -386,28 +403,36 @@ class C10(Suite):
                     ops.append([kind, sil, gsp()])
                 else:
                     ops.append([kind, sil, gdd(), gdd()])
-        return {"fe": fe, "union": union, "quads": quads, "empty": empty, "ops": ops}
+        return {"fe": fe, "union": union, "quads": quads, "empty": empty, "ops": ops, "split": split}
 
-    def gen_modify(self, rng, plain, allow_q):
+    def gen_modify(self, rng, plain, allow_q, fat=False):
         w = None
         ud, un = [], []
         if allow_q and not plain:
             x = rng.random()
-            if x < 0.25:
+            if x < 0.30:
                 w = rng.choice(ADDRESSABLE)
-            if 0.15 < x < 0.40:
-                ud = rng.sample(ADDRESSABLE, rng.choice([1, 1, 2]))
-                if rng.random() < 0.3:
-                    un = [rng.choice(ADDRESSABLE)]
+            if 0.15 < x < 0.45:
+                y = rng.random()
+                if y < 0.75:
+                    ud = rng.sample(ADDRESSABLE, rng.choice([1, 1, 2]))
+                if y > 0.45:
+                    # USING NAMED together with USING (0.45..0.75) or alone (> 0.75): the WHERE dataset has
+                    # exactly these named graphs and, without USING, an empty default graph
+                    un = rng.sample(ADDRESSABLE, rng.choice([1, 1, 2]))
         elif plain and rng.random() < 0.05:
             w = rng.choice(ADDRESSABLE)
-        if w is not None or ud or plain:
+        if un and (not ud or rng.random() < 0.5):
+            # a pattern on which rdflib's WHERE dataset (all named graphs stay visible, F10i) and the
+            # prescribed one agree: GRAPH <a graph listed in USING NAMED>
+            wk = WHERE_OF_GRAPH[rng.choice(un)]
+        elif w is not None or ud or plain:
             wk = rng.choice([k for k, (_, g) in enumerate(WHERES) if not g])
         else:
             wk = rng.randrange(len(WHERES))
         x = rng.random()
-        d = gen_tmpl(rng, False, allow_q) if x < 0.75 else None
-        i = gen_tmpl(rng, True, allow_q) if x > 0.2 else None
+        d = gen_tmpl(rng, False, allow_q, fat=fat) if x < 0.75 else None
+        i = gen_tmpl(rng, True, allow_q, fat=fat) if x > 0.2 else None
         if d is not None and i is not None and rng.random() < 0.5:
             # the swap: what one solution inserts another deletes
             d["t"] = [[["v", 1], ["v", 2], ["v", 3]]]
@@ -442,16 +467,27 @@ class C10(Suite):
             _, w, ud, un, d, i, wk = op
             text = WHERES[wk][0]
             target = front
-            if ud:
-                target = Graph()
+            if ud or un:
+                # the dataset SPARQL 1.1 Update 3.1.3 prescribes: default graph = merge of the USING graphs
+                # (empty when only USING NAMED is given), named graphs = the USING NAMED graphs
+                target = Dataset()
                 for c in ud:
                     for t in Graph(store=store, identifier=gname(c, default)):
                         target.add(t)
+                for c in un:
+                    name = gname(c, default)
+                    for t in Graph(store=store, identifier=name):
+                        target.add(t + (name,))
+                SP.SPARQL_DEFAULT_GRAPH_UNION = False
             elif w is not None:
                 target = Graph(store=store, identifier=gname(w, default))
         rows = []
         extra = {}
-        for b in target.query("SELECT * WHERE { %s }" % text).bindings:
+        try:
+            bindings = target.query("SELECT * WHERE { %s }" % text).bindings
+        finally:
+            SP.SPARQL_DEFAULT_GRAPH_UNION = bool(case["union"])
+        for b in bindings:
             mu = []
             for var, v in b.items():
                 if v is not None and str(var) in VAR_ID:
@@ -462,6 +498,7 @@ class C10(Suite):
     def run_impl(self, case):
         union = case["union"]
         ops = case["ops"]
+        split = bool(case.get("split"))
         omegas = [[] for _ in ops]
         case["omegas"] = omegas
         try:
@@ -470,7 +507,7 @@ class C10(Suite):
                     store, front, default = self._fresh(case, union)
                     try:
                         if k:
-                            front.update(r_request(ops[:k]))
+                            front.update(r_request(ops[:k], split))
                     except Exception:  # noqa: BLE001
                         break  # the request stops here; later operations never run
                     try:
@@ -480,7 +517,7 @@ class C10(Suite):
             store, front, default = self._fresh(case, union)
             raised = False
             try:
-                front.update(r_request(ops))
+                front.update(r_request(ops, split))
             except Exception:  # noqa: BLE001
                 raised = True
             extra = {}
@@ -526,7 +563,8 @@ class C10(Suite):
         fe = case["fe"] if isinstance(case["fe"], str) else "graph"
         f = {"fe_" + fe: 1, "union_" + ("on" if case["union"] else "off"): 1, "ops_total": len(case["ops"]),
              "raised": int(obs["raised"]), "changed": int(sorted(obs["quads"]) != sorted(case["quads"])),
-             "fresh_bnodes": int(any(x >= 2000 for q in obs["quads"] for x in q[:3]))}
+             "fresh_bnodes": int(any(x >= 2000 for q in obs["quads"] for x in q[:3])),
+             "split_graph_groups": int(bool(case.get("split")))}
         for k, o in enumerate(case["ops"]):
             f["op_" + o[0]] = f.get("op_" + o[0], 0) + 1
             if o[0] == "modify":
@@ -537,6 +575,10 @@ class C10(Suite):
                     f["modify_with"] = f.get("modify_with", 0) + 1
                 if o[2]:
                     f["modify_using"] = f.get("modify_using", 0) + 1
+                if o[3] and not o[2]:
+                    f["modify_using_named_only"] = f.get("modify_using_named_only", 0) + 1
+                if o[3] and not o[2] and o[1] is not None:
+                    f["modify_with_and_using_named_only"] = f.get("modify_with_and_using_named_only", 0) + 1
                 if o[4] is not None and o[5] is not None:
                     f["modify_delete_and_insert"] = f.get("modify_delete_and_insert", 0) + 1
                 if any(t is not None and t["q"] for t in (o[4], o[5])):
@@ -569,7 +611,7 @@ class C10(Suite):
                         yield dict(base, ops=ops[:i] + [op[:j] + [tm2] + op[j + 1:]] + ops[i + 1:])
                 if op[1] is not None:
                     yield dict(base, ops=ops[:i] + [[op[0], None] + op[2:]] + ops[i + 1:])
-                if op[2] or op[3]:
+                if (op[2] or op[3]) and not WHERES[op[6]][1]:  # stay inside the generator's domain
                     yield dict(base, ops=ops[:i] + [op[:2] + [[], []] + op[4:]] + ops[i + 1:])
 
     def sweep(self):
